@@ -726,7 +726,13 @@ fn exec_t<T: Sc, F: Factory<T>>(sc: &Scenario) -> RunReport {
                     // statistics: reduced chi2 and covariance, gated on the conditioning of
                     // H = W.[Phi | D_k c] at the common optimum (the covariance is the inverse
                     // of H^T H: errors grow like kappa(H)^2)
-                    let same_opt = vec_bits(&fa.nl_params) == vec_bits(&fb.nl_params) && deleted.is_none();
+                    // statistics are comparable only if both fits ended successfully at the
+                    // same point (a rounding-level difference in the trajectory may end one fit
+                    // with LostPatience exactly where the other converges)
+                    let same_opt = vec_bits(&fa.nl_params) == vec_bits(&fb.nl_params)
+                        && deleted.is_none()
+                        && fa.termination_successful
+                        && fb.termination_successful;
                     let kh = match (&fa.coeffs, same_opt) {
                         (Some(cf), true) => kappa_h(&ra.world, fa.nl_params.as_slice(), cf.as_slice()),
                         _ => f64::INFINITY,
